@@ -76,13 +76,21 @@ UnterminatedLastLines(nb) ==
   {StripEnd(SplitLines(SourceOf(CellsOf(nb)[k]), PyLineSeps)[Len(SplitLines(SourceOf(CellsOf(nb)[k]), PyLineSeps))]) :
      k \in {q \in 1..Len(CellsOf(nb)) :
               LET c == SourceOf(CellsOf(nb)[q]) IN Len(c) > 0 /\ c[Len(c)] \notin Terminators}}
-IsGlued(ln, base, src) ==
-  \E pre \in UnterminatedLastLines(base) :
+\* ln = u1 \o ... \o un \o t : every ui an unterminated last line of one of the three notebooks, at least one of
+\* them of the base, t a source line of the inputs
+RECURSIVE GluedChain(_, _, _, _, _)
+GluedChain(ln, ubase, uall, src, usedBase) ==
+  \E pre \in uall :
      /\ Len(pre) > 0 /\ Len(ln) > Len(pre) /\ SubSeq(ln, 1, Len(pre)) = pre
-     /\ SubSeq(ln, Len(pre) + 1, Len(ln)) \in src
+     /\ LET rest == SubSeq(ln, Len(pre) + 1, Len(ln))
+            ub == usedBase \/ pre \in ubase
+        IN (ub /\ rest \in src) \/ GluedChain(rest, ubase, uall, src, ub)
+IsGlued(ln, base, local, remote, src) ==
+  GluedChain(ln, UnterminatedLastLines(base),
+             UnterminatedLastLines(base) \cup UnterminatedLastLines(local) \cup UnterminatedLastLines(remote), src, FALSE)
 LinesProvenanceModGlue(base, local, remote, merged) ==
   LET src == SourceLines(base) \cup SourceLines(local) \cup SourceLines(remote)
-  IN \A ln \in SourceLines(merged) : IsBlank(ln) \/ ln \in src \/ IsMarker(ln) \/ IsGlued(ln, base, src)
+  IN \A ln \in SourceLines(merged) : IsBlank(ln) \/ ln \in src \/ IsMarker(ln) \/ IsGlued(ln, base, local, remote, src)
 
 LinesSurvive(base, local, remote, merged) ==
   LET bl == SourceLines(base) ml == SourceLines(merged)
